@@ -9,13 +9,15 @@ CHECK = {
     "technique": "exhaustive enumeration of the run-mode x optional-component x thread-count lattice; every "
                  "configuration is a complete run of the real executable under AddressSanitizer and under valgrind "
                  "memcheck",
-    "level_text": "The property quantifies over run configurations, a finite lattice: 4 run modes x every subset of "
-                  "the optional components the mode reads x 1-2 threads on a 4^3 grid (296 configurations). Each one "
+    "level_text": "The property quantifies over run configurations, a finite lattice: 5 run modes x every subset of "
+                  "the optional components the mode reads, with parameter-value variants (live output ranges tight "
+                  "around the gas, zero-luminosity continuous source, two mask types) x 1-2 threads x 2 grid layouts "
+                  "(1 008 configurations). Each one "
                   "is executed to its normal end twice (ASan build, omp build under memcheck); exit status, expected "
                   "output files and the tools' reports are the oracle. Nothing is searched or interleaved, so this is "
                   "exploration, exhaustive over the lattice in the thorough tier and pairwise-covering in the quick "
                   "tier.",
-    "level_note": "One default thread schedule per configuration; problem size fixed at 4^3 cells in 2x2x1 subgrids, "
+    "level_note": "One default thread schedule per configuration; grids 4^3 cells in 2x2x1 and 8^3 cells in 4x4x4 subgrids, "
                   "4 hydro steps, 2 photoionization iterations. Leak checking off. Assumption: the task-based RHD "
                   "modes require a discrete source distribution (do_simulation dereferences it unconditionally), so "
                   "'PhotonSourceDistribution: type: None' is outside the property's precondition; three such probes are "
